@@ -8,7 +8,7 @@ import re
 
 from common import VERIF, run
 from registry import CRATES
-from kanirun import RUSTFLAGS
+from kanirun import RUSTFLAGS, rustflags_for
 
 SHIM = r'''
 #[allow(unused, dead_code, unused_macros)]
@@ -78,7 +78,7 @@ def native_replay(scratch, modules, module, h, vals, outdir):
     test_name = "%s_replay::%s" % (module.modname, h.name)
     cmd = ["cargo", "test", "--offline", "-p", c["pkg"], "--lib"] + c["test_args"] + \
           ["--target-dir", tgt, "--", test_name, "--nocapture", "--test-threads", "1"]
-    env = {"RUSTFLAGS": (RUSTFLAGS + " --cfg aws_s2n_quic_verif_replay").strip(),
+    env = {"RUSTFLAGS": (rustflags_for(h.crate) + " --cfg aws_s2n_quic_verif_replay").strip(),
            "VERIF_REPLAY_VALS": ";".join(",".join(str(b) for b in v) for v in vals)}
     rc, out, wall = run(cmd, cwd=scratch.repo, env=env, timeout=1800)
     open(os.path.join(outdir, "replay-%s.log" % h.name), "w").write(out)
@@ -86,6 +86,9 @@ def native_replay(scratch, modules, module, h, vals, outdir):
         return None, "", out[-1500:]
     m = re.search(r"panicked at ([^\n]*):\n([^\n]*)", out)
     if rc != 0 and m:
+        if "VERIF-REPLAY-ASSUME-VIOLATED" in m.group(2):
+            # the concrete values did not satisfy a harness assumption (value order mismatch): not a reproduction
+            return None, "replay values violated a harness assumption", out[-1500:]
         return True, (m.group(2) + " @ " + m.group(1)).strip(), out[-1500:]
     if rc == 0:
         return False, "", out[-800:]
